@@ -5,9 +5,11 @@ import (
 	"fmt"
 	"io"
 	"math"
+	"os"
 	"os/exec"
 	"strconv"
 	"strings"
+	"sync"
 	"time"
 )
 
@@ -76,6 +78,18 @@ func NewSolver(kind string, st *Store, timeoutMs int) (*Solver, error) {
 	return s, nil
 }
 
+// Fork starts a fresh solver process of the same kind over the same store, with an empty assertion set.
+// Used for nonlinear real queries: in incremental mode z3 keeps every earlier nonlinear atom in its
+// context and slows down by orders of magnitude, a fresh context decides the same query at once.
+func (s *Solver) Fork() (*Solver, error) { return NewSolver(s.Kind, s.st, s.timeout) }
+
+// Account adds the statistics of a forked solver to this one.
+func (s *Solver) Account(f *Solver) {
+	s.Queries += f.Queries
+	s.Seconds += f.Seconds
+	s.Errors = append(s.Errors, f.Errors...)
+}
+
 func (s *Solver) SetTimeout(ms int) {
 	if s.Kind != "cvc5" && ms != s.timeout {
 		s.send(fmt.Sprintf("(set-option :timeout %d)\n", ms))
@@ -141,7 +155,30 @@ func ref(t *Term) string {
 	case OpVar:
 		return smtName(t.Name)
 	}
+	if t.W == RealW {
+		return realInline(t)
+	}
 	return "t" + strconv.Itoa(t.ID)
+}
+
+// Real-sorted nodes are printed inline (not named by a constant with a defining
+// equation): z3's arithmetic rewriter then normalises the polynomials, whereas
+// chains of nonlinear defining equations are left to the nonlinear solver.
+var realInlineCache sync.Map
+
+func realInline(t *Term) string {
+	if v, ok := realInlineCache.Load(t); ok {
+		return v.(string)
+	}
+	var sb strings.Builder
+	sb.WriteString("(" + opNames[t.Op])
+	for _, a := range t.Args {
+		sb.WriteString(" " + ref(a))
+	}
+	sb.WriteString(")")
+	r := sb.String()
+	realInlineCache.Store(t, r)
+	return r
 }
 
 // define emits definitions for every not yet defined node under t (iteratively).
@@ -188,6 +225,9 @@ func (s *Solver) define(t *Term) {
 				}
 				fmt.Fprintf(&s.buf, ") %s)\n", sortStr(x.W))
 			}
+		}
+		if x.W == RealW {
+			continue // printed inline by ref()
 		}
 		// A defined name per DAG node. define-fun is a macro in z3 (the body is
 		// re-expanded at every use, turning the DAG into a tree), so nodes are
@@ -273,9 +313,22 @@ func (s *Solver) Check(assumptions ...*Term) Result {
 		s.buf.WriteString("(check-sat-assuming (" + strings.Join(lits, " ") + "))\n")
 	}
 	t0 := time.Now()
-	s.send(s.buf.String())
+	query := s.buf.String()
+	s.send(query)
 	s.buf.Reset()
 	s.Queries++
+	// z3's soft timeout is not honoured inside every tactic (nonlinear arithmetic): a watchdog kills the
+	// process after twice the timeout plus a grace period; the query and all later ones are then Unknown
+	if s.timeout > 0 && s.cmd != nil {
+		proc := s.cmd.Process
+		wd := time.AfterFunc(time.Duration(2*s.timeout)*time.Millisecond+5*time.Second, func() {
+			if f := os.Getenv("BMV_DUMPQ"); f != "" {
+				os.WriteFile(f, []byte(query), 0o644)
+			}
+			proc.Kill()
+		})
+		defer wd.Stop()
+	}
 	var res Result = Unknown
 	for {
 		line := s.readLine()
